@@ -9,7 +9,7 @@ import math
 from fractions import Fraction
 
 from .source import FuncInfo, Program
-from .term import NUM, Op, Sym, Term, is_num, mk, subst
+from .term import NUM, Op, Sym, Term, is_num, mk, subst, walk
 
 
 class Unsupported(Exception):
@@ -396,6 +396,11 @@ class Interp:
                 return tuple(args)  # shape-only: every operand keeps its values (the like of torch.distributions.utils.broadcast_all)
             if opname == "tensor" and args and isinstance(args[0], Sym) and ("float" in args[0].tags or "list" in args[0].tags) and "dtype" not in kwargs:
                 self.ev("lossy_scalar", value=args[0], how="torch.tensor(<python float>) without dtype", node=node)
+            if opname in ("tensor", "as_tensor") and args and isinstance(args[0], Op) and "dtype" not in kwargs and (args[0].op == "py_float" or (
+                    args[0].op in ("div", "mul", "add", "sub", "py_sqrt", "py_log", "py_exp") and not any("tensor" in getattr(x_, "tags", ()) or "buffer" in getattr(x_, "tags", ()) for x_ in walk(args[0]))
+                    and any(isinstance(x_, Sym) and "float" in x_.tags for x_ in walk(args[0])))):
+                # a Python-level float expression (float(n), a / b of numbers) packed into a default-dtype tensor
+                self.ev("lossy_scalar", value=args[0], how=f"torch.{opname}(<python float expression>) without dtype", node=node)
             if opname in ("set_grad_enabled", "enable_grad", "no_grad"):
                 return Obj("torch.gradmode", opname, {"mode": opname, "arg": args[0] if args else None})
             return Op(opname, args, kwargs)
@@ -877,8 +882,10 @@ class Interp:
             return r if isinstance(op, ast.Is) else not r
         if isinstance(op, (ast.In, ast.NotIn)):
             if isinstance(b, (dict, list, tuple, set, str)) and not isinstance(a, Term):
-                if isinstance(b, dict) and isinstance(a, str) is False and not isinstance(a, (int, float)):
-                    r = any(a is k for k in b)
+                def plain(x_):
+                    return isinstance(x_, (str, int, float, bool, type(None))) or (isinstance(x_, tuple) and all(plain(y_) for y_ in x_))
+                if isinstance(b, dict) and not plain(a):
+                    r = any(a is k for k in b)  # objects are keyed by identity
                 else:
                     r = a in b
                 return r if isinstance(op, ast.In) else not r
